@@ -1,0 +1,35 @@
+//go:build verif
+
+// Machine-checked contracts for package imagehash (comment-only; read by /verif/bin/vcgo).
+// le64 is defined in /verif/specs/bytes.spec (little-endian: least significant byte first).
+package imagehash
+
+// ---- C16: binary forms of the hashes. Encode writes, Decode reads, the same little-endian layout, so
+// Decode(Encode(h)) == h follows from the two postconditions (both are stated through the one spec function le64).
+// Encode needs room for the encoding in the caller's buffer (documented precondition of an encoder);
+// Decode is a decoder of arbitrary input and has no precondition.
+
+//@ func PHash64.Encode
+//@   props C16
+//@   requires len(dst) >= 8
+//@   modifies mem(dst)
+//@   ensures [C16] le64(dst, 0) == uint64(ph)
+
+//@ func (*PHash64).Decode
+//@   props C16
+//@   modifies *ph
+//@   ensures [C16] len(src) >= 8 ==> uint64(*ph) == le64(src, 0)
+
+//@ func PHash256.Encode
+//@   props C16
+//@   requires len(buf) >= 32
+//@   modifies mem(buf)
+//@   ensures [C16] le64(buf, 0) == ph[0] && le64(buf, 8) == ph[1] && le64(buf, 16) == ph[2] && le64(buf, 24) == ph[3]
+
+//@ func (*PHash256).Decode
+//@   props C16
+//@   modifies *ph
+//@   ensures [C16] len(buf) >= 32 ==> (*ph)[0] == le64(buf, 0)
+//@   ensures [C16] len(buf) >= 32 ==> (*ph)[1] == le64(buf, 8)
+//@   ensures [C16] len(buf) >= 32 ==> (*ph)[2] == le64(buf, 16)
+//@   ensures [C16] len(buf) >= 32 ==> (*ph)[3] == le64(buf, 24)
